@@ -242,6 +242,67 @@ def r19_3(run, model):
            witness="two user locals (or a local and a temporary) can get the same name")
 
 
+def r19_15(run, model):
+    run.rule("R19.15", "a renamed local stays outside the user's name space all the way to Go: the separator of `hint/idx` is outside the "
+                       "identifier grammar (R19.3), so wherever a later stage respells it (`name.replace(\"/\", ..)`) the new spelling is one "
+                       "no user identifier can contain either - `__` is legal in a goml identifier, `fn x__4` and the parameter `x` with id 4 "
+                       "are one Go name")
+    ident_rx = None
+    for v, k, t in TB.token_kinds(model):
+        if v == "Ident":
+            ident_rx = t
+    if ident_rx is None:
+        raise AnalysisIncomplete("lexer Ident regex not found")
+    rx = re.compile(ident_rx + r"\Z")
+    hir = "crates/compiler/src/hir.rs"
+    f = model.fn("local_ident_name", hir)
+    m = re.search(r'format!\("\{\}(.+?)\{\}"', S.norm_ws(run.facts.text(hir, f.body["sp"])))
+    if not m:
+        raise AnalysisIncomplete("local_ident_name: separator not found")
+    sep = m.group(1)
+    n = 0
+    seen = set()
+    for g in model.fns():
+        if g.body is None or g.test or not g.file.startswith("crates/compiler/src/") or "/tests/" in g.file:
+            continue
+        for c in S.find(g.body, "MethodCall"):
+            if c["method"] != "replace" or len(c["args"]) != 2 or c["args"][0]["k"] != "Lit" or c["args"][0].get("value") != sep or c["args"][1]["k"] != "Lit":
+                continue
+            n += 1
+            to = c["args"][1]["value"]
+            if (g.name, to) in seen:
+                continue
+            seen.add((g.name, to))
+            ok = rx.match("a" + to + "1") is None
+            run.ob("R19.15", f"{g.name}|the local separator respelled {to!r} stays outside the identifier grammar", ok, site(g.file, c["sp"]),
+                   f"`{sep}` becomes `{to}`: " + ("no user identifier contains it" if ok else f"`x{to}4` is a legal goml identifier"),
+                   witness="fn x__4(n: int32) -> int32 { n + 1 }  fn twice(x: int32, f: int32) -> int32 { x__4(x) + f }: the parameter x (local id 4) is "
+                           "emitted as x__4 and the call becomes `x__4(x__4)` - Go: cannot call non-function x__4")
+    run.floor("respellings of the local separator", n, 2)
+
+
+def r19_16(run, model):
+    run.rule("R19.16", "a generated type name keeps the letter case of what it encodes: goml names are case-sensitive (`struct Foo` and `struct foo` "
+                       "are two types), so no function of the Go back end that builds a name from an encoded type (it calls encode_ty / "
+                       "go_ident and returns a String) folds case on the way (to_lowercase / to_uppercase / to_ascii_*case); expected count "
+                       "zero, the name builders inspected are the control")
+    FOLD = {"to_lowercase", "to_uppercase", "to_ascii_lowercase", "to_ascii_uppercase", "make_ascii_lowercase", "make_ascii_uppercase"}
+    n = 0
+    for g in model.fns():
+        if g.body is None or g.test or not g.file.startswith("crates/compiler/src/go/"):
+            continue
+        ret = (g.node.get("ret") or "").replace(" ", "")
+        if ret not in ("String", "std::string::String") or not any(True for _ in S.calls(g.body, "encode_ty", "go_ident", "ty_compact")):
+            continue
+        n += 1
+        folds = sorted({c["method"] for c in S.find(g.body, "MethodCall") if c["method"] in FOLD})
+        run.ob("R19.16", f"{g.name}|the name keeps the case of the type it encodes", not folds, site(g.file, g.node["sp"]),
+               f"case folding: {folds}" if folds else "no case folding",
+               witness="struct Foo { a: int32 } struct foo { b: string } with ref(Foo {..}) and ref(foo {..}): `type ref_foo_x struct` is declared twice "
+                       "(once with `value Foo`, once with `value foo`)")
+    run.floor("name builders of the Go back end over encoded types", n, 4)
+
+
 def r19_4(run, model):
     run.rule("R19.4", "type-name encoders encode the element count of variadic type formers (tuple arity, array length), so nested shapes with "
                       "the same flattened element list get different names")
@@ -445,6 +506,8 @@ def r19_13(run, model):
 
 
 def run(run, model):
+    run.try_rule(r19_15, model)
+    run.try_rule(r19_16, model)
     # impl function names keep every component whole: two impls never share one generated name (shared with C17 R17.1)
     from rules import c17 as _c17n
     run.try_rule(_c17n.r17_1, model)
